@@ -46,13 +46,17 @@ def family(name, h):
     if name == "bcrypt_sha256":
         idents = tuple(i for i in idents if i in ("$2a$", "$2b$"))
     return dict(name=name, idents=set(idents), hasRounds=has_rounds, elided=ELIDED.get(name, NOCOST), hasSalt="salt" in h.setting_kwds and name not in ("cisco_type7",),
-                hexnorm=name in HEXNORM, padrepair=name in PADREPAIR, rounds=rounds)
+                hexnorm=name in HEXNORM, padrepair=name in PADREPAIR, altb64=name in ALTB64, rounds=rounds)
+
+
+#: hashers whose salt and digest fields are "adapted base64" (documented to read the standard '+' as well as '.')
+ALTB64 = {"pbkdf2_sha1", "pbkdf2_sha256", "pbkdf2_sha512", "ldap_pbkdf2_sha1", "ldap_pbkdf2_sha256", "ldap_pbkdf2_sha512"}
 
 
 def fam_expr(f):
-    return ('[name |-> "%s", idents |-> %s, hasRounds |-> %s, elided |-> %s, hasSalt |-> %s, hexnorm |-> %s, padrepair |-> %s, rounds |-> %s]'
+    return ('[name |-> "%s", idents |-> %s, hasRounds |-> %s, elided |-> %s, hasSalt |-> %s, hexnorm |-> %s, padrepair |-> %s, altb64 |-> %s, rounds |-> %s]'
             % (f["name"], tlc.tla_val(f["idents"]), str(f["hasRounds"]).upper(), "NoCost" if f["elided"] == NOCOST else f["elided"],
-               str(f["hasSalt"]).upper(), str(f["hexnorm"]).upper(), str(f["padrepair"]).upper(),
+               str(f["hasSalt"]).upper(), str(f["hexnorm"]).upper(), str(f["padrepair"]).upper(), str(f["altb64"]).upper(),
                "{" + ", ".join(map(str, sorted(f["rounds"]))) + "}"))
 
 
@@ -114,6 +118,12 @@ def concretise(name, h, f, x, rnd, jitter=False):
         else:
             return None
         canon = text                      # a distinct valid spelling: kept as it is
+    elif form == "altb64":
+        parts = s.split("$")
+        if len(parts) < 3 or "." not in parts[-1] + parts[-2]:
+            return None
+        parts[-1], parts[-2] = parts[-1].replace(".", "+"), parts[-2].replace(".", "+")
+        text = "$".join(parts)
     elif form == "uphex":
         plen = 0
         for pre in ("0x0100", "{MD5}", "{SHA}", "md5", "*", "$3$$", "S:"):
@@ -415,6 +425,45 @@ def extra_variants(chk, rnd):
                     if facts != (ln, r, p_, b"0123456789abcdef", bytes(range(32))) or back != s or ph.get("block_size", 8) != r or ph.get("parallelism", 1) != p_:
                         chk.violation(f"scrypt:fields:{ident}:roundtrip", f"scrypt {ident} string for ln={ln}, r={r}, p={p_} parses back as ln={q.rounds}, r={q.block_size}, p={q.parallelism}; re-rendered equal: {back == s}",
                                       {"hash": s, "ident": ident, "r": r, "p": p_, "ln": ln})
+    # configuration-only strings (settings and salt, no digest) of both scrypt spellings: accepted, and completed to the same hash
+    for ident in ("$7$", "$scrypt$"):
+        for r, p_ in ((1, 1), (8, 1), (2, 3)):
+            chk.count(("scrypt-config-only", ident, r, p_))
+            chk.action("roundtrip")
+            try:
+                full = H.scrypt.using(ident=ident, rounds=1, block_size=r, parallelism=p_, salt=b"saltsalt").hash(PW)
+                cfg = full[:full.rindex("$")] if ident == "$7$" else full[:full.rindex("$") + 1]
+                for form in (cfg, cfg.encode()):
+                    got = H.scrypt.genhash(PW, form)
+                    q = H.scrypt.from_string(form)
+                    if got != full or (q.rounds, q.block_size, q.parallelism, q.salt, q.checksum) != (1, r, p_, b"saltsalt", None) or not H.scrypt.identify(form):
+                        chk.violation(f"scrypt:config-only:{ident}", f"scrypt configuration string {cfg!r}: genhash gives {got!r} (the full hash is {full!r}), parsed as "
+                                      f"ln={q.rounds}, r={q.block_size}, p={q.parallelism}, digest {q.checksum!r}", {"config": cfg, "full": full})
+                        break
+            except Exception as ex:
+                chk.violation(f"scrypt:config-only:{ident}:{type(ex).__name__}", f"scrypt configuration-only string ({ident}, r={r}, p={p_}): {type(ex).__name__}: {ex}", {"ident": ident})
+    # libpass PBKDF2 records with salts of every base64 tail class (length 0, 1, 2 mod 3): made, inspected (salt decodes back), verified
+    try:
+        from libpass.hashers.pbkdf2 import PBKDF2SHA256Handler, PBKDF2SHA512Handler
+        from libpass.inspect.pbkdf2 import inspect_pbkdf2_hash, PBKDF2SHA256CryptInfo, PBKDF2SHA512CryptInfo
+        from libpass._utils.deprecated import ab64_decode
+        for cls, info in ((PBKDF2SHA256Handler, PBKDF2SHA256CryptInfo), (PBKDF2SHA512Handler, PBKDF2SHA512CryptInfo)):
+            for n in (1, 2, 3, 5, 8, 16, 17, 20, 32):
+                salt = bytes((7 * i + n) % 256 for i in range(n))
+                chk.count(("libpass-pbkdf2-salt", cls.__name__, n % 3))
+                chk.action("libpass-inspect")
+                try:
+                    hs = cls(rounds=1).hash(PW, salt=salt)
+                    inf = inspect_pbkdf2_hash(hs, info)
+                    back = ab64_decode(inf.salt) if isinstance(inf.salt, (str, bytes)) else inf.salt
+                    ok = cls(rounds=1).verify(hs, PW)
+                    ref = H.pbkdf2_sha256 if cls is PBKDF2SHA256Handler else H.pbkdf2_sha512
+                    if back != salt or ok is not True or ref.using(salt=salt, rounds=1).hash(PW) != hs:
+                        chk.violation(f"libpass:pbkdf2:salt{n % 3}mod3", f"{cls.__name__} with a {n}-byte salt: record {hs[:50]}.. inspects to salt {back!r}, verifies {ok}", {"hash": hs, "salt": salt.hex()})
+                except Exception as ex:
+                    chk.violation(f"libpass:pbkdf2:salt{n % 3}mod3:{type(ex).__name__}", f"{cls.__name__} with a {n}-byte salt: {type(ex).__name__}: {ex}", {"salt": salt.hex()})
+    except ImportError as ex:
+        chk.uncovered.append(f"libpass pbkdf2: {ex}")
 
 
 def replay(chk, path):
